@@ -1,9 +1,16 @@
 #!/bin/bash
 # MANIFEST.setup_cmd: build the Lean model, the proofs and the native driver from files on disk (offline).
+# The driver must build (every check needs it). The proofs are built here to warm the cache; a proof module that does not
+# build is reported by the check of the property it belongs to (a broken obligation is a finding of that check, not a setup
+# failure), so its failure here only prints a warning.
 set -e -o pipefail
 cd "$(dirname "$0")"
 export PYTHONDONTWRITEBYTECODE=1
 /venv/bin/python -m harness.translate /repo
 cd lean
-lake build 2>&1 | grep -v "conda" | tail -5
+lake build driver 2>&1 | grep -v "conda" | tail -3
 test -x .lake/build/bin/driver
+if ! lake build 2>&1 | grep -v "conda" | tail -8; then
+  echo "WARNING: some proof modules do not build; the checks of the properties they belong to will report it"
+fi
+exit 0
